@@ -524,7 +524,9 @@ func ProcessRedTracesIngest(myid int64) {
 		return
 	}
 
-	spanIDtoService := make(map[string]string)
+	// Span ids are only unique within a trace.
+	type spanKey struct{ traceID, spanID string }
+	spanIDtoService := make(map[spanKey]string)
 	entrySpans := make([]*structs.Span, 0)
 	serviceToSpanCnt := make(map[string]int)
 	serviceToErrSpanCnt := make(map[string]int)
@@ -534,7 +536,7 @@ func ProcessRedTracesIngest(myid int64) {
 	serviceToMetrics := make(map[string]structs.RedMetrics)
 
 	for _, span := range spans {
-		spanIDtoService[span.SpanID] = span.Service
+		spanIDtoService[spanKey{span.TraceID, span.SpanID}] = span.Service
 	}
 
 	// Get entry spans
@@ -542,7 +544,7 @@ func ProcessRedTracesIngest(myid int64) {
 
 		// A span is an entry point if it has no parent or its parent is a different service
 		if len(span.ParentSpanID) != 0 {
-			parentServiceName, exists := spanIDtoService[span.ParentSpanID]
+			parentServiceName, exists := spanIDtoService[spanKey{span.TraceID, span.ParentSpanID}]
 			if exists && parentServiceName == span.Service {
 				continue
 			}
